@@ -73,6 +73,11 @@ pub(crate) struct MemTable {
 	/// WAL number that was current when this memtable started receiving writes.
 	/// Used to determine which WALs can be safely deleted after flush.
 	wal_number: AtomicU64,
+	/// Oldest WAL segment that holds the record of a batch applied to this
+	/// memtable (`u64::MAX` if none is known). Can be older than `wal_number`:
+	/// `apply` runs after the WAL write and outside the commit lock, so the
+	/// memtable/WAL pair may have been rotated in between.
+	oldest_logged_wal: AtomicU64,
 	/// Upper bound of the arena bytes that batches currently inside `add` may
 	/// still take, the arena capacity, and the arena bytes used when empty.
 	pending_bytes: AtomicU64,
@@ -96,6 +101,7 @@ impl MemTable {
 			skiplist,
 			latest_seq_num: AtomicU64::new(0),
 			wal_number: AtomicU64::new(0),
+			oldest_logged_wal: AtomicU64::new(u64::MAX),
 			pending_bytes: AtomicU64::new(0),
 			capacity: arena_capacity.min(arena::MAX_ARENA_SIZE) as u64,
 			empty_size,
@@ -113,6 +119,16 @@ impl MemTable {
 	/// Returns 0 if the WAL number has not been set.
 	pub(crate) fn get_wal_number(&self) -> u64 {
 		self.wal_number.load(Ordering::Acquire)
+	}
+
+	/// Records that a batch applied to this memtable was logged in `wal_number`.
+	pub(crate) fn note_logged_in(&self, wal_number: u64) {
+		self.oldest_logged_wal.fetch_min(wal_number, Ordering::AcqRel);
+	}
+
+	/// Oldest WAL segment this memtable still depends on, if known.
+	pub(crate) fn oldest_logged_wal(&self) -> u64 {
+		self.oldest_logged_wal.load(Ordering::Acquire)
 	}
 
 	pub(crate) fn get(&self, key: &[u8], seq_no: Option<u64>) -> Option<(InternalKey, Value)> {
